@@ -34,6 +34,7 @@ class HGen:
         self.r = rnd
         self.k = 0
         self.helpers = []  # dict(name, params, defaults, body, kind, leaf, inlinable, feats)
+        self.stay_names = []  # leaf helpers that cannot be inlined: they stay calls by name (a name other binders may carry too)
 
     def body(self, params, depth, leafs, feats):
         r = self.r
@@ -70,13 +71,18 @@ class HGen:
                 feats.add("two-deep-nested-lambdas")
                 return f"{p}.c{m}.Select(lambda {v1}: {v1}.d{m}.Select(lambda {v2}: {v2}.q + {v1}.r + {self.body([x for x in params if x not in (v1, v2)] or [v1], 0, [], feats)}))"
         if k < 0.8:
-            v = r.choice([p, "j", "j", f"v{m}", r.choice(params), "e", "x", "w", "evt", f"{p}_1", f"{r.choice(params)}_1", "j_1", "e_1", "y_1"])
+            v = r.choice([p, "j", "j", f"v{m}", r.choice(params), "e", "x", "w", "evt", f"{p}_1", f"{r.choice(params)}_1", "j_1", "e_1", "y_1"] + self.stay_names)
+            if v in self.stay_names:
+                feats.add("binder-named-like-a-helper-that-stays-a-call")
             feats.add("nested-lambda-reusing-parameter" if v in params else ("nested-lambda-j" if v == "j" else "nested-lambda"))
             inner = [x for x in params if x != v] + [v]
             return f"{p}.c{m}.Select(lambda {v}: {self.body(inner, depth - 1, leafs, feats)})"
+        leafs = [h for h in leafs if h["name"] not in params]
         if leafs:
             h = r.choice(leafs)
             feats.add("calls-helper")
+            if not h["inlinable"] or "calls-helper-that-stays" in h["feats"]:
+                feats.add("calls-helper-that-stays")
             args = [self.body(params, depth - 1, [], feats) for _ in h["params"][: len(h["params"]) - len(h["defaults"]) + r.randint(0, len(h["defaults"]))]]
             return f"{h['name']}({', '.join(args)})"
         return f"{p}.z{m}"
@@ -84,12 +90,14 @@ class HGen:
     def helper(self, i, leaf, leafs):
         r = self.r
         np = r.randint(1, 3)
-        params = r.sample(["x", "y", "s", "j", "e"], np)
+        params = r.sample(["x", "y", "s", "j", "e"] + (self.stay_names if not leaf else []), np)
+        if set(params) & set(self.stay_names):
+            pass
         ndef = r.randint(0, np - 1) if r.random() < 0.3 else 0
         defaults = [r.choice(["2", "0.5", "'d'"]) for _ in range(ndef)]
         feats = set()
         body = self.body(params, r.randint(0, 3), leafs if not leaf else [], feats)
-        kind = r.choice(["def", "def", "def-doc", "lambda", "multi"]) if not leaf else r.choice(["def", "lambda"])
+        kind = r.choice(["def", "def", "def-doc", "lambda", "multi"]) if not leaf else r.choice(["def", "def", "lambda", "multi"])
         sig = ", ".join(p if j < np - ndef else f"{p}={defaults[j - (np - ndef)]}" for j, p in enumerate(params))
         name = f"h{i}"
         if kind == "def":
@@ -102,6 +110,10 @@ class HGen:
             text = f"def {name}({sig}):\n    tmp = {body}\n    return tmp\n"
         h = {"name": name, "params": params, "defaults": defaults, "body": body, "kind": kind, "leaf": leaf, "inlinable": kind != "multi", "feats": feats, "text": text}
         self.helpers.append(h)
+        if leaf and kind == "multi":
+            self.stay_names.append(name)
+        if set(params) & set(self.stay_names):
+            feats.add("binder-named-like-a-helper-that-stays-a-call")
         return h
 
     def call(self, h, argsrc, feats):
@@ -130,12 +142,16 @@ class HGen:
 def gen_file(rnd):
     g = HGen(rnd)
     leafs = [g.helper(i, True, []) for i in range(rnd.randint(2, 4))]
-    tops = [g.helper(len(leafs) + i, False, leafs) for i in range(rnd.randint(5, 8))]
+    # (a middle level: helpers calling leaf helpers, called by the top ones)
+    mids = [g.helper(len(leafs) + i, False, leafs) for i in range(rnd.randint(1, 3))]
+    tops = mids + [g.helper(len(leafs) + len(mids) + i, False, leafs + mids) for i in range(rnd.randint(4, 6))]
     cases = []
     for ci in range(rnd.randint(20, 30)):
-        P = rnd.choice(["e", "j", "x", "evt", "y", "w", "e_1", "j_1", "HCUT1", "HNAME"])
+        P = rnd.choice(["e", "j", "x", "evt", "y", "w", "e_1", "j_1", "HCUT1", "HNAME"] + g.stay_names)
         h = rnd.choice(tops)
         feats = set(h["feats"])
+        if P in g.stay_names:
+            feats.add("binder-named-like-a-helper-that-stays-a-call")
         g.k += 1
         m = g.k
 
@@ -155,8 +171,10 @@ def gen_file(rnd):
             body = ctext if rnd.random() < 0.5 else f"({ctext}, {P}.q{m})"
         elif form < 0.85:
             # call site inside a nested lambda; arguments mention the nested parameter and the outer one
-            v = rnd.choice(["j", "w", P])
+            v = rnd.choice(["j", "w", P] + g.stay_names[:1])
             feats.add("call-site-in-nested-lambda")
+            if v in g.stay_names:
+                feats.add("binder-named-like-a-helper-that-stays-a-call")
 
             def argsrc2(v=v, P=P, m=m):
                 return rnd.choice([v, f"{v}.pt", f"{P}.w{m}" if v != P else f"{v}.w{m}", f"({v}.a + {m})"])
@@ -264,7 +282,11 @@ def run_file(ctx, rnd):
             ctx.violation(f"inlined-helper-misbehaves:{why}", f"{c['text']}: python calling the helpers gives {probe.describe(expected, 2)}, the recorded lambda {astx.unparse(lam)[:250]} gives {probe.describe(got, 2)} | helpers: {witness['helpers']}", witness)
             continue
         ctx.count("behaviour-equal")
-        if c["positional"]:
+        if c["positional"] and {"binder-named-like-a-helper-that-stays-a-call", "calls-helper-that-stays"} <= set(c["feats"]):
+            # a helper whose body (after inlining) calls a function by a name that is bound where the helper is used cannot be
+            # pasted there: leaving it a call by name is the promised fall-back
+            ctx.count("left-by-name-is-legitimate:free-name-bound-at-the-call-site")
+        elif c["positional"]:
             left = [n.func.id for n in astx.walk_nodes(lam) if isinstance(n, ast.Call) and isinstance(n.func, ast.Name) and n.func.id in top_inlinable]
             if left:
                 ctx.violation("inlinable-helper-left-as-call", f"{c['text']}: helper(s) {left} called positionally were not replaced by their body: {astx.unparse(lam)[:250]}", witness)
@@ -343,6 +365,43 @@ def p14(): return lambda e: corrected(e.v)
 def p15(): return lambda e: next_one(e.v)
 def p16(): return lambda e: after_deco(e)
 def p17(): return lambda e: (nothing(e), e.v)
+# a helper that stays a call by name (two statements), reached through a helper, where the call site binds that very name
+def scale2(v):
+    w = v.scaled
+    return w
+def inner_s(v): return scale2(v)
+def outer_s(scale2): return (inner_s(scale2.a), scale2.b)
+def d19(ds): return ds.Select(lambda e: outer_s(e))
+def p19(): return lambda e: outer_s(e)
+def d20(ds): return ds.Select(lambda scale2: inner_s(scale2))
+def p20(): return lambda scale2: inner_s(scale2)
+def d21(ds): return ds.Select(lambda e: e.jets.Select(lambda scale2: (inner_s(e), scale2.pt)))
+def p21(): return lambda e: e.jets.Select(lambda scale2: (inner_s(e), scale2.pt))
+# defaults that are no plain literals: the value python kept when the helper was defined
+K_T = (100, 200)
+def make_k():
+    K_T = (10, 20)
+    def helper_k(x, k=K_T): return x.f(k[0])
+    return helper_k
+helper_k = make_k()
+def d22(ds): return ds.Select(lambda e: helper_k(e))
+def p22(): return lambda e: helper_k(e)
+T_B = (1, 2)
+def h_b(x, k=T_B): return x.f(k[1])
+T_B = (50, 60)
+def d23(ds): return ds.Select(lambda e: h_b(e))
+def p23(): return lambda e: h_b(e)
+def make_lim():
+    limits = (3, 4)
+    def h_c(x, k=limits): return x.f(k[1])
+    return h_c
+h_c = make_lim()
+def d24(ds): return ds.Select(lambda e: h_c(e))
+def p24(): return lambda e: h_c(e)
+# a captured lambda assigned the ordinary way
+add_one = lambda x: x.plus1
+def d25(ds): return ds.Select(lambda e: add_one(e.v))
+def p25(): return lambda e: add_one(e.v)
 def d0(ds): return ds.Select(lambda e: ident(e.x))
 def d1(ds): return ds.Select(lambda e: const(e.x))
 def d2(ds): return ds.Select(lambda e: sh(e))
@@ -362,15 +421,24 @@ def p6(): return lambda e: e.jets.Select(lambda j: two(j, e))
 
 def directed(ctx):
     m = modgen.load(DIRECTED, "c05d")
-    env = {n: getattr(m, n) for n in ("ident", "const", "sh", "addy", "two", "outer", "add3", "deep", "inner_kw", "outer_kw", "add_to_all", "table", "five_plus", "shifted", "corrected", "next_one", "after_deco", "nothing", "plus_1", "plus_1_then_10")}
+    env = {n: getattr(m, n) for n in ("ident", "const", "sh", "addy", "two", "outer", "add3", "deep", "inner_kw", "outer_kw", "add_to_all", "table", "five_plus", "shifted", "corrected", "next_one", "after_deco", "nothing", "plus_1", "plus_1_then_10", "scale2", "inner_s", "outer_s", "helper_k", "h_b", "h_c", "add_one")}
     tags = ["bare-parameter", "constant-body", "nested-lambda-shadows-parameter", "argument-captured-by-inner-binder", "reordered-keywords", "helper-calls-helper", "call-in-nested-lambda", "curried-two-deep-lambdas-argument-names-innermost", "two-deep-nested-lambdas-argument-names-innermost",
             "keyword-only-parameter-hides-argument", "default-of-a-lambda-that-stays", "new-name-already-bound-in-scope", "keyword-of-a-call-that-stays", "default-bound-at-definition",
-            "bound-method", "functools-wraps-wrapper", "lambda-on-the-decorator-line", "bare-return", "closures-of-one-factory-calling-each-other"]
+            "bound-method", "functools-wraps-wrapper", "lambda-on-the-decorator-line", "bare-return", "closures-of-one-factory-calling-each-other",
+            "free-name-of-inner-helper-vs-outer-helper-parameter", "free-name-of-helper-vs-lambda-parameter", "free-name-of-helper-vs-nested-lambda-parameter",
+            "tuple-default-shadowing-a-global", "tuple-default-global-rebound-later", "tuple-default-from-enclosing-function", "assigned-lambda"]
     for i, tag in enumerate(tags):
         ctx.case("directed:" + tag, True)
         expected = probe.behaviour(getattr(m, f"p{i}")())
         try:
             s = getattr(m, f"d{i}")(m.DS())
+        except ValueError as e:
+            if tag.startswith("tuple-default") and "Invalid constant type" in str(e):
+                # the value python kept for the default is no transportable literal: refused like a captured variable holding it (C04)
+                ctx.count("refused-non-transportable-default")
+                continue
+            ctx.violation("exc:ValueError@directed", f"directed {tag}: ValueError: {e}", {"directed": tag})
+            continue
         except Exception as e:
             ctx.violation(f"exc:{type(e).__name__}@directed", f"directed {tag}: {type(e).__name__}: {e}", {"directed": tag})
             continue
